@@ -36,7 +36,7 @@ from embit.psbt import PSBT
 from embit.psbtview import PSBTView
 
 PROP = "C02"
-MODS = ["EmbitModel.Props.C02", "EmbitModel.Props.C02X", "EmbitModel.Props.C02Y"]
+MODS = ["EmbitModel.Props.C02", "EmbitModel.Props.C02X", "EmbitModel.Props.C02Y", "EmbitModel.Props.C02Z"]
 H = gw.H
 AUTH = [None, 0, 1, 2, 3, 0x81, 0x82, 0x83]
 
@@ -698,10 +698,11 @@ def run(tier, seed):
                      "sign.run / sign.view instantiate the proved model with the driver's executable secp256k1, RFC 6979 + grinding, BIP340, "
                      "BIP32 and taproot-tweak models of C07/C09/C10 (each tied to embit by its own property's check)",
                      "signers are private key objects of the modelled kinds (ec.PrivateKey, private bip32.HDKey, descriptor Key, Descriptor)",
-                     "C02Y: the driver's environment is definitionally `opsOf secpOps realHashes` (theorem driver_ops_eq); validity of every "
-                     "added signature (SEC 1 / BIP340 verification against the consensus digest) is proved of it relative to EcLaws + InfUnique "
-                     "of the curve record — that secp256k1 as implemented satisfies these laws is the remaining mathematical assumption, "
-                     "exercised on every case by sign.verify (the theorem's conclusion decided per write) and by the independent verifier"]
+                     "C02Y / C02Z: the driver's environment is definitionally `opsOf Crypto.secpLawful realHashes` (theorem driver_ops_eq), the "
+                     "PSBT is parsed with the key model's parsers over the same record (signKeyOps); validity of every added signature (SEC 1 / "
+                     "BIP340 verification against the consensus digest) is proved of it with NO curve hypothesis (Props/C02Z: EcLaws + InfUnique "
+                     "of the record the driver evaluates are theorems, Props/C08W); sign.verify (the theorem's conclusion decided per write) and "
+                     "the verifier ops sigcheck.* (Spec.Ecdsa.verify / Spec.Bip340.verify over the same record) still evaluate it on every case"]
     c.build_and_audit()
     explore(c, 70 if tier == "quick" else 1200)
     explore_adversarial(c, 150 if tier == "quick" else 2000)
